@@ -224,7 +224,13 @@ fn api_bin_expr(l: SimpleExpr, op: &str, r: SimpleExpr) -> Option<SimpleExpr> {
         "rshift" => x.right_shift(r),
         "is" => x.is(r),
         "isnot" => x.is_not(r),
-        // PgExpr: ILike / NotILike take a LikeExpr (the right operand must be a plain string value): not here
+        // PgExpr::ilike / not_ilike take a pattern: when the right operand is a plain string value
+        "pg0" | "pg1" => match &r {
+            SimpleExpr::Value(Value::String(Some(p))) => {
+                if op == "pg0" { PgExpr::ilike(x, p.as_str()) } else { PgExpr::not_ilike(x, p.as_str()) }
+            }
+            _ => return None,
+        },
         "pg2" => PgExpr::matches(x, r),
         "pg3" => PgExpr::contains(x, r),
         "pg4" => PgExpr::contained(x, r),
